@@ -118,7 +118,21 @@ func NewHTTPReverseProxy(option HTTPReverseProxyOptions, vhostRouter *Routers) *
 			IdleConnTimeout:       60 * time.Second,
 			MaxIdleConnsPerHost:   5,
 			DialContext: func(ctx context.Context, network, addr string) (net.Conn, error) {
-				return rp.CreateConnection(ctx.Value(RouteInfoKey).(*RequestRouteInfo), true)
+				// The connection is created by the route config chosen when the request was routed -- the one
+				// the pool key names -- never by a second look-up: a route registered or removed since then
+				// must not give the request a connection to another backend, which would be pooled under the
+				// key of the first route (or under the bare host when there was none) and handed to later requests.
+				info := ctx.Value(RouteInfoKey).(*RequestRouteInfo)
+				rc, _ := ctx.Value(RouteConfigKey).(*RouteConfig)
+				if rc != nil {
+					if rc.CreateConnByEndpointFn != nil {
+						return rc.CreateConnByEndpointFn(info.Endpoint, info.RemoteAddr)
+					}
+					if rc.CreateConnFn != nil {
+						return rc.CreateConnFn(info.RemoteAddr)
+					}
+				}
+				return nil, fmt.Errorf("%v: %s %s %s", ErrNoRouteFound, info.Host, info.URL, info.HTTPUser)
 			},
 			Proxy: func(req *http.Request) (*url.URL, error) {
 				// Use proxy mode if there is host in HTTP first request line.
